@@ -107,6 +107,11 @@ def init (c : Nat) : St :=
     pstack := fun _ => [], used := upd (fun _ => false) segCode true, listOn := true, saves := [], structs := [],
     structSaveSeg := segCode }
 
+/-- state at the start of a pass when the target came from the command line (`asl -cpu`, no CPU statement yet): as `init`,
+but the initial CODE segment has not been entered through `SetNSeg` - `PCsUsed[]` is all `False` until `WriteCode`
+marks it at the first statement -/
+def initCmdline (c : Nat) : St := { init c with used := fun _ => false }
+
 /-- `ProgCounter()` -/
 def pc (s : St) : Int := s.pcs s.actPC
 /-- `EProgCounter()` -/
